@@ -412,10 +412,12 @@ def t_obs(truth_tree, run, vis, info):
 _TRIPLE = re.compile(r"\(\s*(\d+)\s*,\s*(\d+)\s*,\s*(\d+)\s*\)")
 
 
-def coq_judge(tag, case_terms, shard=120, timeout=900):
+def coq_judge(tag, case_terms, shard=36, timeout=900):
     """evaluate Model.GenericCorr.judge_all on the cases; returns {(case, obs): code}"""
     os.makedirs(CORR, exist_ok=True)
-    shards = [case_terms[i:i + shard] for i in range(0, len(case_terms), shard)] or [[]]
+    # round-robin so that the heavy documents (random, big) are spread over the shards
+    nsh = max(1, (len(case_terms) + shard - 1) // shard)
+    shards = [case_terms[k::nsh] for k in range(nsh)]
     paths = []
     for k, sh in enumerate(shards):
         path = os.path.join(CORR, f"cases_{tag}_{k}.v")
@@ -432,7 +434,7 @@ def coq_judge(tag, case_terms, shard=120, timeout=900):
             raise BuildError(os.path.relpath(paths[k], COQ), (out + err)[-3000:])
         body = out.split("=", 1)[1] if "=" in out else ""
         for m in _TRIPLE.finditer(body):
-            codes[(k * shard + int(m.group(1)), int(m.group(2)))] = int(m.group(3))
+            codes[(k + nsh * int(m.group(1)), int(m.group(2)))] = int(m.group(3))
     for p in paths:
         base = p[:-2]
         for ext in (".v", ".vo", ".vok", ".vos", ".glob"):
@@ -578,6 +580,8 @@ def run(ck: Check):
         # corpus: earlier failing documents first
         rdir = os.path.join(os.path.dirname(CORR), "..", "replays", ck.pid)
         for fn in sorted(os.listdir(rdir)) if os.path.isdir(rdir) else []:
+            if fn.startswith("known-"):
+                continue
             try:
                 rp = json.load(open(os.path.join(rdir, fn)))["replay"]
                 if "doc" in rp and "xml" in rp["doc"]:
